@@ -454,7 +454,9 @@ class LoopRun:
             step = self.inv(ex, fr, k1, xs, {'done': done1})
             run.oblige(f'{cid}.loop{ordinal}.inv.step', 'inv.step', _b(ex, step))
             raise PathEnd('loop-step')
-        # exit: k == n, invariant known
+        # exit: k == n, so done == xs[:n] == xs: the invariant is restated over xs itself (same statement)
+        full = self.inv(ex, fr, Sym(K.Int, n), xs, {'done': xs})
+        run.assume(_b(ex, full))
         ex.exec_block(st.orelse, fr)
 
 
@@ -585,7 +587,7 @@ def run_contract(table, registry, contract, feas_timeout_ms=2000, max_paths=400)
                 # the clause (spec) raises on this path although the real function returned: the clause is false here
                 run.notes.append(f'clause {fname} raised {rexc.exc.cls}@{rexc.exc.origin}')
                 r = False
-            ob = run.oblige(f'{contract.id}.{cname}', 'post', _b(ex, r), {'clause': fname, 'outcome': outcome['kind']})
+            ob = run.oblige(f'{contract.id}.{cname}', 'post', _b(ex, r), {'clause': fname, 'cname': cname, 'outcome': outcome['kind']})
             ob.meta['raised'] = avail['raised']
         if contract.canary and outcome['kind'] == 'return':
             r = call_clause(ex, cm, contract.canary, avail)
